@@ -186,8 +186,9 @@ def div(op, input, other, rounding_mode=None):
     if not is_scalar(other) or rounding_mode is not None or other < 0:
         # A rounded division cannot be expressed as a division of the scale, and a scale must stay positive
         return qfallback(op, input, other, rounding_mode=rounding_mode)
-    # We just divide the scale
-    return QBytesTensor(input.qtype, input.axis, input.size(), input.stride(), input._data, op(input._scale, other))
+    # We just divide the scale: the result owns a copy of the data
+    out_data = input._data.clone()
+    return QBytesTensor(input.qtype, input.axis, input.size(), out_data.stride(), out_data, op(input._scale, other))
 
 
 @register_qbytestensor_op([torch.ops.aten.neg])
@@ -282,11 +283,13 @@ def mm(op, input, other):
 
 @register_qbytestensor_op([torch.ops.aten.mul])
 def mul(op, input, other):
-    # If one of the multiplicands is a scalar, just multiply the scale (which must stay positive)
+    # If one of the multiplicands is a scalar, just multiply the scale (which must stay positive): the result owns a copy of the data
     if is_scalar(input) and input >= 0:
-        return QBytesTensor(other.qtype, other.axis, other.size(), other.stride(), other._data, input * other._scale)
+        out_data = other._data.clone()
+        return QBytesTensor(other.qtype, other.axis, other.size(), out_data.stride(), out_data, input * other._scale)
     if is_scalar(other) and other >= 0:
-        return QBytesTensor(input.qtype, input.axis, input.size(), input.stride(), input._data, other * input._scale)
+        out_data = input._data.clone()
+        return QBytesTensor(input.qtype, input.axis, input.size(), out_data.stride(), out_data, other * input._scale)
     return qfallback(op, input, other)
 
 
